@@ -5,6 +5,9 @@ import json, os
 HERE = os.path.dirname(os.path.abspath(__file__))
 F = []
 def kf(id, props, what, site, match, witness, status="open", commit=None):
+    props = list(props)
+    if "C01" in props and "C10" not in props:
+        props.append("C10")  # C10 runs the C01 oracle on the configuration seeds
     for p in props:
         e = dict(id=f"{id}-{p}", property=p, status=status, what=what, site=site, match=match, witness=witness)
         if commit: e["commit"] = commit
@@ -144,9 +147,9 @@ kf("KF-shared-nodes-else-branch", ["C01", "C10", "C04"],
    {"cause": RE(r"target-in-else-branch,source-has-shared-nodes")},
    "seed config/loopbound: specialize(loop body, 'i == 0'); eliminate_dead_code(`if i == CFG.a` in the else branch)")
 kf("KF-bind-expr-by-ref-arg", ["C01", "C04"],
-   "bind_expr on a scalar passed by reference to a call binds a copy and passes the copy, so the callee's write to the scalar is lost",
+   "bind_expr / bind_config on a scalar passed by reference to a call binds a copy and passes the copy, so the callee's write to the scalar is lost",
    "LoopIR_scheduling.DoBindExpr",
-   {"op": ["bind_expr"], "kind": ["value-mismatch", "uninit"], "cause": RE(r"binds-call-argument")},
+   {"op": ["bind_expr", "bind_config"], "kind": ["value-mismatch", "uninit"], "cause": RE(r"binds-call-argument")},
    "seed alloc/carried: extract_subproc(loop body) then bind_expr(argument `t` of the call)")
 kf("KF-autofission-unchecked", ["C01", "C04"],
    "autofission (deprecated) performs no dependence check at all",
@@ -168,5 +171,20 @@ kf("KF-print-generated-name-collision", ["C17"],
    "core/LoopIR_pprint.PrintEnv.get_name",
    {"kind": ["same-name-overlapping-scopes"]},
    "seed dup/gen_names: unroll_loop(i)", status="fixed", commit="ee574bd0")
+kf("KF-avx2-buffer-to-proc", ["C15"],
+   "a vector-register buffer (@AVX2) passed to an ordinary procedure whose parameter is also @AVX2 compiles to C that passes a __m256 where a float* is expected",
+   "backend/LoopIR_compiler.comp_fnarg / memory.AVX2.window (non-instr callee with register memory)",
+   {"kind": ["invalid-c"], "why": ["S3-memory-across-call", "S3-memory-depth2", "S3-memory-via-set"], "err": RE(r"incompatible type for argument")},
+   "callee(d: f32[8] @ AVX2): pass ; caller allocates x: f32[8] @ AVX2 and calls callee(x)")
+kf("KF-window-arg-to-tensor-param", ["C15"],
+   "a window-typed argument of the caller (after set_window(x, True)) passed whole to a callee that requires a dense tensor is accepted and compiles to C that passes the window struct where a pointer is expected",
+   "backend/win_analysis.WindowAnalysis (only window *expressions* are checked against tensor parameters)",
+   {"kind": ["inconsistent-accepted"], "why": ["S4-set_window"]},
+   "g(x: f32[4]): callee(x) with callee(d: f32[4]); set_window(g, 'x', True)")
+kf("KF-window-extent-unchecked", ["C03"],
+   "accesses through a window are bounds-checked against the underlying buffer, not against the window's own declared extent (w = x[0:n-1]; w[n-1] is accepted)",
+   "frontend/boundscheck.CheckBounds.translate_eff (window accesses are translated to the base buffer)",
+   {"kind": ["oob"], "family": ["FE2", "FE1"], "detail": RE(r"^(read|write) [wv]\[")},
+   "w = x[0:n - 1]; w[n - 1] = 1.0 with x: f32[n]")
 json.dump({"findings": F}, open(os.path.join(HERE, "known_findings.json"), "w"), indent=1)
 print(len(F), "entries")
